@@ -7,9 +7,10 @@
 (*         the DisallowOverlap constructor); int and Word transcriptions agree.   *)
 (*         Emits each layout with the storage lengths around its true extent.     *)
 (*  kbit   the same tests on a machine whose usize has K bits (all sizes,         *)
-(*         strides, lengths < 2^K): every acceptance that is not Safe is printed  *)
-(*         as a CANDIDATE (design-level counterexample: wrap-around).  No         *)
-(*         invariant is asserted here; the count is reported.                     *)
+(*         strides, lengths < 2^K): with CHECKED arithmetic (the current code)     *)
+(*         acceptance implies Safe (invariant); with the WRAPPING arithmetic of     *)
+(*         the code before the repair every acceptance that is not Safe is printed  *)
+(*         as a CANDIDATE (boundary inputs; the count is reported).                 *)
 (*  wide   grid of 64-bit corner sizes/strides; the storage lengths offered are   *)
 (*         the ones the WRAPPING transcription would accept (when small enough    *)
 (*         to allocate) plus fixed small lengths.  Emitted for replay.            *)
@@ -42,22 +43,23 @@ Lens == 0..MaxLen
 ExactOk ==
   LET sh == lay.shape  st == lay.strides  cs == ContigStridesM(sh, 0) IN
   /\ \A n \in Lens :
-       /\ AcceptFromDataM(sh, n, 0) => (Safe(sh, cs, n) /\ InjectiveFast(sh, cs))
-       /\ AcceptWithStridesM(sh, st, n, 0) => (Safe(sh, st, n) /\ InjectiveFast(sh, st))
-       /\ AcceptSliceWithStridesM(sh, st, n, 0) => Safe(sh, st, n)
+       /\ AcceptFromDataM(sh, n, 0, "exact") => (Safe(sh, cs, n) /\ InjectiveFast(sh, cs))
+       /\ AcceptWithStridesM(sh, st, n, 0, "exact") => (Safe(sh, st, n) /\ InjectiveFast(sh, st))
+       /\ AcceptSliceWithStridesM(sh, st, n, 0, "exact") => Safe(sh, st, n)
   \* Safe really is "every valid index lands inside the storage"
   /\ \A n \in {MinDataLen(sh, st), MinDataLen(sh, st) - 1} :
        n >= 0 => (Safe(sh, st, n) <=> \A o \in OffsetSet(sh, st, 0) : o < n)
 AgreeOk ==
   LET sh == lay.shape  st == lay.strides  shW == WSeq(sh)  stW == WSeq(st) IN
   /\ NatSeq(ContigStridesW(shW, TRUE)) = ContigStridesM(sh, 0)
-  /\ ToNat(MinDataLenW(shW, stW, TRUE)) = MinDataLen(sh, st)
-  /\ ToNat(MinDataLenW(shW, stW, FALSE)) = MinDataLenM(sh, st, 0)
-  /\ ToNat(LenW(shW, TRUE)) = Prod(sh)
-  /\ \A n \in {0, MinDataLen(sh, st), MaxLen} :
-       /\ AcceptFromDataW(shW, FromNat(n), TRUE) = AcceptFromDataM(sh, n, 0)
-       /\ AcceptWithStridesW(shW, stW, FromNat(n), TRUE) = AcceptWithStridesM(sh, st, n, 0)
-       /\ AcceptSliceWithStridesW(shW, stW, FromNat(n), TRUE) = AcceptSliceWithStridesM(sh, st, n, 0)
+  /\ ToNat(MinDataLenW(shW, stW, "checked")) = MinDataLen(sh, st)
+  /\ ToNat(MinDataLenW(shW, stW, "wrap")) = MinDataLen(sh, st)
+  /\ ToNat(MinDataLenW(shW, stW, "exact")) = MinDataLenM(sh, st, 0, "exact")
+  /\ ToNat(LenW(shW, "wrap")) = Prod(sh)
+  /\ \A n \in {0, MinDataLen(sh, st), MaxLen} : \A am \in {"exact", "checked", "wrap"} :
+       /\ AcceptFromDataW(shW, FromNat(n), am) = AcceptFromDataM(sh, n, 0, "exact")
+       /\ AcceptWithStridesW(shW, stW, FromNat(n), am) = AcceptWithStridesM(sh, st, n, 0, "exact")
+       /\ AcceptSliceWithStridesW(shW, stW, FromNat(n), am) = AcceptSliceWithStridesM(sh, st, n, 0, "exact")
        /\ SafeW(shW, stW, FromNat(n)) = Safe(sh, st, n)
 
 Around(m) == {n \in {m - 1, m, m + 1} : n >= 0}
@@ -73,9 +75,16 @@ StridesKbit(r) == [1..r -> 0..(M - 1)]
 \* number of storage lengths at which each K-bit constructor accepts an unsafe layout
 KbitCandidates ==
   LET sh == lay.shape  st == lay.strides  cs == ContigStridesM(sh, M) IN
-  [from_data |-> Cardinality({n \in 0..(M - 1) : AcceptFromDataM(sh, n, M) /\ ~Safe(sh, cs, n)}),
-   with_strides |-> Cardinality({n \in 0..(M - 1) : AcceptWithStridesM(sh, st, n, M) /\ ~Safe(sh, st, n)}),
-   slice_with_strides |-> Cardinality({n \in 0..(M - 1) : AcceptSliceWithStridesM(sh, st, n, M) /\ ~Safe(sh, st, n)})]
+  [from_data |-> Cardinality({n \in 0..(M - 1) : AcceptFromDataM(sh, n, M, "wrap") /\ ~Safe(sh, cs, n)}),
+   with_strides |-> Cardinality({n \in 0..(M - 1) : AcceptWithStridesM(sh, st, n, M, "wrap") /\ ~Safe(sh, st, n)}),
+   slice_with_strides |-> Cardinality({n \in 0..(M - 1) : AcceptSliceWithStridesM(sh, st, n, M, "wrap") /\ ~Safe(sh, st, n)})]
+\* the repaired (checked) K-bit constructors accept only safe (and, with DisallowOverlap, injective) layouts
+KbitCheckedOk ==
+  LET sh == lay.shape  st == lay.strides  cs == ContigStridesM(sh, M) IN
+  \A n \in 0..(M - 1) :
+    /\ AcceptFromDataM(sh, n, M, "checked") => Safe(sh, cs, n)
+    /\ AcceptWithStridesM(sh, st, n, M, "checked") => (Safe(sh, st, n) /\ InjectiveFast(sh, st))
+    /\ AcceptSliceWithStridesM(sh, st, n, M, "checked") => Safe(sh, st, n)
 EmitKbit ==
   LET c == KbitCandidates IN
   (c.from_data + c.with_strides + c.slice_with_strides > 0) =>
@@ -97,7 +106,8 @@ EmitWide ==
   LET sh == lay.shape
       plain == lay.strides = <<>> /\ Len(sh) > 0
       st == IF plain THEN ContigStridesW(sh, TRUE) ELSE lay.strides
-      lens == SmallLens({MinDataLenW(sh, st, TRUE), LenW(sh, TRUE)}) \cup {0, 1, 64}
+      \* storage lengths the code before the repair would have accepted (boundary inputs)
+      lens == SmallLens({MinDataLenW(sh, st, "wrap"), LenW(sh, "wrap")}) \cup {0, 1, 64}
   IN PrintT(<<"REPLAY", ToJson([class |-> (IF plain THEN "wide_plain" ELSE "wide_strided"),
                                 shapeW |-> sh, stridesW |-> lay.strides, lens |-> SortedSeq(lens)])>>)
 
@@ -164,6 +174,7 @@ InvChain == mode = "chain" => (InBounds /\ WindowOk /\ MutInjective /\ SplitDisj
 
 \* -------------------------------------------------------- the combined model
 InvExact == mode = "exact" => (ExactOk /\ AgreeOk)
+InvKbit == mode = "kbit" => KbitCheckedOk
 Emit == CASE mode = "exact" -> EmitExact
           [] mode = "kbit" -> EmitKbit
           [] mode = "wide" -> EmitWide
